@@ -7,6 +7,7 @@ mkdir -p .work/bin evidence replays
 (cd translators && go build -o ../.work/bin/gstrans .)
 cp /repo/go.sum harness/go.sum
 (cd harness && for c in cmd/*/; do n=$(basename $c); [ "$n" = probe ] && continue; go build -tags verif -o ../.work/bin/$n ./cmd/$n; done)
-for t in difftables:GenDiffTables.v; do .work/bin/gstrans ${t%%:*} /repo coq/Gen/${t##*:}; done
+(cd /repo && go build -o /verif/.work/bin/swagger ./cmd/swagger; git checkout -- go.sum 2>/dev/null || true)
+for t in difftables:GenDiffTables.v textsites:GenTextSites.v sections:GenSections.v; do .work/bin/gstrans ${t%%:*} /repo coq/Gen/${t##*:}; done
 (cd coq && coq_makefile -f _CoqProject -o Makefile >/dev/null && timeout 3000 make -j16 >/dev/null)
 echo "setup ok"
